@@ -852,6 +852,14 @@ func c15ErrorCases() []errCase {
 		{"mixed-interface-container", "map[interface{}]int{1:1, \"a\":2}", map[interface{}]int{1: 1, "a": 2}, true, true},
 		{"mixed-interface-container", "[][]interface{}{{1},{\"a\"}}", [][]interface{}{{1}, {"a"}}, true, true},
 		{"mixed-interface-container", "[]interface{}{} (no element type)", []interface{}{}, true, true},
+		// a nil-able part without the `maybe` marker converts to maybe[T] when nil
+		// and to T otherwise: containers mixing the two are inconsistent data
+		{"inconsistent-nilable-parts", "map[int]struct{Tags []string}{1:{nil}, 2:{[x]}}", map[int]struct{ Tags []string }{1: {nil}, 2: {[]string{"x"}}}, true, false},
+		{"inconsistent-nilable-parts", "map[int]struct{P *int}{1:{&1}, 2:{nil}}", map[int]struct{ P *int }{1: {pone}, 2: {nil}}, true, false},
+		{"inconsistent-nilable-parts", "map[int]struct{M map[string]int}{1:{nil}, 2:{{a:1}}}", map[int]struct{ M map[string]int }{1: {nil}, 2: {map[string]int{"a": 1}}}, true, false},
+		{"inconsistent-nilable-parts", "[]struct{Tags []string}{{nil}, {[x]}}", []struct{ Tags []string }{{nil}, {[]string{"x"}}}, true, false},
+		{"inconsistent-nilable-parts", "map[int][]struct{P *int}{1:{{nil}}, 2:{{&1}}}", map[int][]struct{ P *int }{1: {{nil}}, 2: {{pone}}}, true, false},
+		{"inconsistent-nilable-parts", "struct{M map[int]struct{P *int}} with nil and non-nil P", struct{ M map[int]struct{ P *int } }{map[int]struct{ P *int }{1: {nil}, 2: {pone}}}, true, false},
 		{"unsupported-kind", "chan int", ch, true, true},
 		{"unsupported-kind", "func()", func() {}, true, true},
 		{"unsupported-kind", "complex128", complex(1, 2), true, true},
